@@ -79,6 +79,8 @@ def _tmp():
 
 # ------------------------------------------------------------------ formats
 
+VCF_INFO_LINES = ('##INFO=<ID=DP,Number=1,Type=Integer,Description="d">\n##INFO=<ID=AF,Number=A,Type=Float,Description="f">\n'
+                  '##INFO=<ID=DB,Number=0,Type=Flag,Description="b">\n')
 VCF_HDR = "##fileformat=VCFv4.1\n#CHROM\tPOS\tID\tREF\tALT\tQUAL\tFILTER\tINFO"
 SAM_HDR = "@HD\tVN:1.0\tSO:unsorted\n@SQ\tSN:chr1\tLN:1000\n@SQ\tSN:chr2\tLN:500\n"
 
@@ -89,6 +91,8 @@ FORMATS = {
     "narrowpeak": (".narrowPeak", None, 10, {0: "id", 1: "int", 2: "int", 3: "id", 5: "strand", 9: "int"}),
     "vcf": (".vcf", None, 8, {0: "id", 1: "pos", 2: "str", 3: "str", 4: "str", 5: "str", 6: "str"}),
     "vcfg": (".vcf", "VCFBuffer2", 9, {0: "id", 1: "pos", 2: "str", 3: "str", 4: "str", 6: "str"}),
+    # VCF whose header declares INFO keys: the INFO column of the lazy table is a nested lazy table (never replaced here)
+    "vcfi": (".vcf", None, 8, {0: "id", 1: "pos", 2: "str", 3: "str", 4: "str", 5: "str", 6: "str"}),
     "sam": (".sam", None, 12, {0: "id", 1: "int", 2: "id", 3: "int", 4: "int", 5: "str", 6: "str", 7: "int", 8: "int",
                                9: "str", 10: "str"}),
     "gtf": (".gtf", None, 9, {}),
@@ -102,6 +106,7 @@ FIELD_NAMES = {
     "narrowpeak": ["chromosome", "start", "stop", "name", "score", "strand", "signal_value", "p_value", "q_value", "summit"],
     "vcf": ["chromosome", "position", "id", "ref_seq", "alt_seq", "quality", "filter", "info"],
     "vcfg": ["chromosome", "position", "id", "ref_seq", "alt_seq", "quality", "filter", "info", "genotype"],
+    "vcfi": ["chromosome", "position", "id", "ref_seq", "alt_seq", "quality", "filter", "info"],
     "sam": ["name", "flag", "chromosome", "position", "mapq", "cigar", "next_chromosome", "next_position", "length",
             "sequence", "quality", "extra"],
     "fastq": ["name", "sequence", "quality"],
@@ -156,10 +161,11 @@ def gen_record(fmt, rng, shape):
         if fmt == "narrowpeak":
             f += [_nc_float(rng), _nc_float(rng), _nc_float(rng), rng.choice(["-1", "5", "007", "+12"])]
         return ["\t".join(f)], f
-    if fmt in ("vcf", "vcfg"):
+    if fmt in ("vcf", "vcfg", "vcfi"):
+        info = [".", "DP=004;AF=0.5", "NS=3", "H2"] if fmt != "vcfi" else [".", "DP=004;AF=0.5", "DB;DP=7", "AF=0.25", "DP=12", "DB"]
         f = ["chr" + _name(rng, 2), _nc_int(rng, 1), rng.choice([".", "rs" + _name(rng, 4)]), _seq(rng, 3).upper(),
              rng.choice(["A", "T", "C,G", "<DEL>", "."]), rng.choice([".", "1e3", "29", "007.0"]),
-             rng.choice([".", "PASS", "q10;s50"]), rng.choice([".", "DP=004;AF=0.5", "NS=3", "H2"])]
+             rng.choice([".", "PASS", "q10;s50"]), rng.choice(info)]
         extra = []
         if shape["samples"] >= 0:
             fmtcol = rng.choice(["GT", "GT:DP", "GT:GQ:DP"])
@@ -333,7 +339,7 @@ def _new_values(rng, kind, n):
 
 def make_case(rng, fmt, depth, replace_p=0.3, eol=None):
     ntab = rng.choice([1, 2, 2, 3])
-    shape = {"samples": rng.choice([-1, 0, 1, 2, 3]) if fmt == "vcf" else rng.choice([1, 2, 3]), "nc": rng.random() < 0.5}
+    shape = {"samples": rng.choice([-1, 0, 1, 2, 3]) if fmt in ("vcf", "vcfi") else rng.choice([1, 2, 3]), "nc": rng.random() < 0.5}
     eol = eol if eol is not None else ("\r\n" if (fmt != "bam" and rng.random() < 0.2) else "\n")
     tables = []
     for _ in range(ntab):
@@ -364,6 +370,8 @@ def _readable(fmt):
         return list(range(9))
     if fmt == "gtf":
         return [0, 3, 4, 8]
+    if fmt == "vcfi":
+        return sorted(FORMATS[fmt][3]) + [7]     # the nested INFO table is read (cached) too
     return sorted(FORMATS[fmt][3])
 
 
@@ -376,7 +384,7 @@ def _equal_size_case(rng, fmt, eol, n):
     while len(recs) < n and tries < 4000:
         tries += 1
         cand = make_case(rng, fmt, 0, 0, eol)["recs"][0][0]
-        if len(cand["raw"]) == len(first["raw"]) and (fmt not in ("vcf", "vcfg") or cand["raw"].count("\t") == first["raw"].count("\t")):
+        if len(cand["raw"]) == len(first["raw"]) and (fmt not in ("vcf", "vcfg", "vcfi") or cand["raw"].count("\t") == first["raw"].count("\t")):
             recs.append(cand)
     while len(recs) < n:
         recs.append(dict(first))
@@ -419,8 +427,8 @@ def _set_op(c):
 def cases(tier, rng):
     _tmp()
     big = tier in ("thorough", "widen")
-    fmts = ["bed", "bed6", "narrowpeak", "vcf", "vcfg", "sam", "fastq", "fasta2", "bam", "gtf"]
-    per = {"quick": 350, "thorough": 4000, "widen": 1200}[tier]
+    fmts = ["bed", "bed6", "narrowpeak", "vcf", "vcfg", "vcfi", "sam", "fastq", "fasta2", "bam", "gtf"]
+    per = {"quick": 300, "thorough": 3600, "widen": 1100}[tier]
     L = 6 if big else 3
     # 0. fixed small programs on every format (identity, reverse, repeat, double selection then concatenate)
     for fmt in fmts:
@@ -448,7 +456,7 @@ def cases(tier, rng):
             while len(base["recs"][0]) < 7:
                 extra = make_case(rng, fmt, 0, 0, eol)
                 base["recs"][0] = (base["recs"][0] + extra["recs"][0])[:7]
-            if fmt in ("vcf", "vcfg"):      # one sample-column count per file
+            if fmt in ("vcf", "vcfg", "vcfi"):      # one sample-column count per file
                 ok = len({r["raw"].count("\t") for r in base["recs"][0]}) == 1
                 if not ok:
                     base["recs"][0] = [base["recs"][0][0]] * 7
@@ -668,8 +676,8 @@ def _field_eval(p, c):
 def _header(c):
     fmt = c["fmt"]
     eol = c["eol"]
-    if fmt in ("vcf", "vcfg"):
-        h = VCF_HDR
+    if fmt in ("vcf", "vcfg", "vcfi"):
+        h = VCF_HDR if fmt != "vcfi" else VCF_HDR.replace("#CHROM", VCF_INFO_LINES + "#CHROM")
         if c["samples"] >= 0:
             h += "\tFORMAT" + "".join(f"\ts{i}" for i in range(c["samples"]))
         return h.replace("\n", eol) + eol
@@ -951,5 +959,5 @@ def finding_key(c, got, exp):
     if c["repl"]:
         return f"{fmt}:replaced-write" + (":crlf" if crlf else "")
     if crlf:
-        return ("sam" if fmt == "sam" else "delimited" if fmt in ("bed", "bed6", "narrowpeak", "vcf", "vcfg") else fmt) + ":crlf-selection-loses-newline"
+        return ("sam" if fmt == "sam" else "delimited" if fmt in ("bed", "bed6", "narrowpeak", "vcf", "vcfg", "vcfi") else fmt) + ":crlf-selection-loses-newline"
     return f"{fmt}:passthrough-bytes-differ"
